@@ -606,7 +606,10 @@ Inv_C09_ReleaseExactlyMarked ==
     (lw.valid /\ IsDepActor(W.actor) /\ W.ev = "Update" /\ ~W.dry /\ PR.hasSnap /\ W.pre.exists
        /\ W.pre.kind \in {"ObjectSet", "ClusterObjectSet"} /\ W.args.body.cr.lifecycle # W.pre.cr.lifecycle)
     => \/ W.args.body.cr.lifecycle = "Active" /\ W.pre.cr.pausedByParent /\ ~PR.snap.cr.paused /\ ~W.args.body.cr.pausedByParent
-       \/ W.args.body.cr.lifecycle = "Paused" /\ (PR.snap.cr.paused <=> W.args.body.cr.pausedByParent)
+       \* pausing: with the mark when the deployment is paused; otherwise (pause before archival) without adding one.
+       \* (A mark that is already there - e.g. stale because a user re-activated the revision by hand - is not the deployment's doing.)
+       \/ W.args.body.cr.lifecycle = "Paused" /\ (IF PR.snap.cr.paused THEN W.args.body.cr.pausedByParent
+                                                    ELSE W.args.body.cr.pausedByParent = W.pre.cr.pausedByParent)
        \/ W.args.body.cr.lifecycle = "Archived" /\ ~PR.snap.cr.paused
 
 \* after an error-free pass of a paused deployment every non-archived revision it listed is paused by parent;
@@ -619,7 +622,11 @@ Inv_C09_Propagation ==
          (k \in Keys /\ store[k].exists /\ store[k].uid = pass[W.actor].listed[i].uid /\ pass[W.actor].listed[i].cr.lifecycle # "Archived")
          => IF pass[W.actor].snap.cr.paused
               THEN store[k].cr.lifecycle = "Paused" /\ store[k].cr.pausedByParent
-              ELSE ~store[k].cr.pausedByParent \/ store[k].cr.lifecycle = "Archived"
+              \* "paused by parent" = Paused and marked, as the code reads it; a stale mark on an active revision is not a pause
+              \* (observation O5: a mark left stale on a revision a user re-activated by hand is carried along when the
+              \*  revision is later paused for archival; only revisions the pass found paused-by-parent must be released)
+              ELSE (pass[W.actor].listed[i].cr.pausedByParent /\ pass[W.actor].listed[i].cr.lifecycle = "Paused")
+                     => ~(store[k].cr.pausedByParent /\ store[k].cr.lifecycle = "Paused")
 
 ---------------------------------------------------------------------------
 (* C11 no write before preflight; never outside the owner's namespace *)
@@ -773,7 +780,8 @@ HistLimit(pr) == IF pr.snap.cr.histLimit < 0 THEN 10 ELSE pr.snap.cr.histLimit
 Inv_C08_PruneOldestOnly ==
     (DepWrite /\ W.ev = "Delete" /\ IsSetKind(W.pre.kind) /\ IsListed(PR, W.pre.oid))
     => LET d == ListedBy(PR, W.pre.oid) IN
-       /\ d.cr.revision < MaxRev(PR.listed)
+       \* never the newest revision (with duplicate revision numbers - C07's business - which one is current is undefined)
+       /\ (d.cr.revision < MaxRev(PR.listed) \/ \E i \in DOMAIN PR.listed : PR.listed[i].cr.revision = d.cr.revision /\ PR.listed[i].oid # d.oid)
        \* at least `limit` previous revisions (the newest one is the current revision) are not older than d
        /\ Cardinality({ i \in DOMAIN PR.listed : PR.listed[i].cr.revision > d.cr.revision
                                                   \/ (PR.listed[i].cr.revision = d.cr.revision /\ PR.listed[i].oid # d.oid) }) - 1
@@ -792,7 +800,9 @@ Inv_C08_SharedObjectNotDeleted ==
                                    /\ DeploymentOf(store[ok]) = DeploymentOf(PR.snap) /\ store[ok].cr.revision = store[nk].cr.revision)
             /\ \A ok \in Keys : (store[ok].exists /\ IsSetKind(store[ok].kind) /\ DeploymentOf(store[ok]) = DeploymentOf(PR.snap))
                                    => /\ store[ok].cr.revision <= store[nk].cr.revision
-                                      /\ ~(PR.snap.cr.revision < store[ok].cr.revision /\ store[ok].cr.revision < store[nk].cr.revision))
+                                      /\ ~(PR.snap.cr.revision < store[ok].cr.revision /\ store[ok].cr.revision < store[nk].cr.revision)
+            \* ... also not through an intermediate revision that is gone by now: S is the last entry of N's previous list
+            /\ Len(store[nk].cr.previous) > 0 /\ store[nk].cr.previous[Len(store[nk].cr.previous)] = PR.target)
          => W.key \notin SetObjKeys(store[nk])
 
 ---------------------------------------------------------------------------
